@@ -639,6 +639,10 @@ impl PayloadEncode for ScmpDestinationUnreachable {
 
     #[inline]
     fn wire_valid(&self) -> Result<(), InvalidStructureError> {
+        // `Unassigned(k)` with an assigned `k` would be decoded as the assigned code.
+        if ScmpDestinationUnreachableCode::from(u8::from(self.code)) != self.code {
+            return Err("SCMP code must not be a non canonical Unassigned code".into());
+        }
         Ok(())
     }
 
@@ -804,6 +808,10 @@ impl PayloadEncode for ScmpParameterProblem {
 
     #[inline]
     fn wire_valid(&self) -> Result<(), InvalidStructureError> {
+        // `Unassigned(k)` with an assigned `k` would be decoded as the assigned code.
+        if ScmpParameterProblemCode::from(u8::from(self.code)) != self.code {
+            return Err("SCMP code must not be a non canonical Unassigned code".into());
+        }
         Ok(())
     }
 
